@@ -63,6 +63,14 @@ theorem c28_model_is_source (c : Config) (s : State) (now rInc rReset : Nat) :
   unfold increment P2.Extracted.C28.backoffIncrement resetDue bump reset
   by_cases h : now - s.lastReset ≥ s.resetAfter <;> simp [h]
 
+/-- The two random draws are taken from the half-open ranges `min_increment..max_increment` and
+`min_reset..max_reset` (range operator and bounds re-extracted from `random_increment` /
+`random_reset_after`): exactly what `Op.Admissible` allows; and `Backoff::new` starts from
+`initial_value` and calls `reset()` (the model's `new = reset`). -/
+theorem c28_draw_ranges_are_source :
+    P2.Extracted.C28.incRangeInclusive = false ∧ P2.Extracted.C28.resetRangeInclusive = false
+    ∧ P2.Extracted.C28.newStartsWith = "config.initial_value" := by decide
+
 /-! ### Bounds -/
 
 theorem bump_bounds (c : Config) (v rInc : Nat) (hc : c.initial ≤ c.max)
